@@ -218,7 +218,12 @@ extern void *mpt_identifier_set(MPT_STRUCT(identifier) *id, const char *name, in
 	addr = (id->_len > id->_max) ? id->_base : 0;
 	if (len) {
 		int post = id->_max - len;
-		dest = memcpy(id->_val, name, len);
+		/* zero pointer indicates non-printable (cleared) data */
+		if (name) {
+			dest = memcpy(id->_val, name, len);
+		} else {
+			dest = memset(id->_val, 0, len);
+		}
 		if (post) {
 			memset(id->_val + len, 0, post);
 		}
